@@ -17,8 +17,13 @@ EXPLANATION = ("Text reaches code through many independent splice sites. The two
                "python_string_literal appends exactly one token per input character (statement contract on its loop; the token depends on that character "
                "only), and every one of the 1,114,112 code points is checked exhaustively against the Python lexer (the token is self-delimiting, "
                "evaluates back to the character, contains no raw quote / backslash / line break); escape_docstring_text is checked exhaustively over "
-               "all strings up to length 6 of a critical alphabet inside a real docstring. Which sites use which primitive, and every site that uses "
-               "neither, is exercised by the position x payload matrix: one document family with 27 text-bearing positions, a dictionary of hostile "
+               "all strings up to length 6 of a critical alphabet inside a real docstring. That the splice sites of meaning-carrying text USE the primitive is "
+               "proved per site as non-interference modulo declassification: for one arbitrary iteration of each emitting loop (enum members, both Meta "
+               "key maps, discriminator tuple and dict, query / header / cookie names) every line handed to write_line satisfies "
+               "line == line[text := text'] with python_string_literal(..text..) held fixed — the line varies with the text only through the "
+               "primitive; likewise the result of _get_field_default for string defaults, and the result of DocumentationWriter.render_docstring with "
+               "respect to summary / description through escape_docstring_text (comprehension results carry their dependence explicitly). Sites that "
+               "use neither primitive (one-line docstrings, comments) and the end-to-end effect are exercised by the position x payload matrix: one document family with 27 text-bearing positions, a dictionary of hostile "
                "payloads plus seeded random Unicode strings, each compared with the benign-text build: every file parses, the statement skeleton is "
                "the same, meaning-carrying literals evaluate to the original text.")
 TRUSTED = ["Python's lexer: a string literal made of self-delimiting tokens evaluates to the concatenation of the tokens' values (meta-argument over the exhaustive per-token check)",
@@ -279,8 +284,10 @@ BOUNDED = [bounded_position_payload_matrix]
 
 MANIFEST = {
     "category": "other",
-    "text": "The shared string-literal primitive is proved token-per-character and checked against the Python lexer for every code point; the docstring "
-            "escape exhaustively over short critical strings; all splice sites through a 27-position x hostile-payload matrix against the benign build.",
+    "text": "The string-literal primitive is proved token-per-character and checked against the Python lexer for every code point; eight splice sites, the "
+            "default renderer and the docstring writer are proved to let text through only via the escaping primitives (non-interference modulo "
+            "declassification); the docstring escape is checked exhaustively over short critical strings; everything end to end through a 27-position x "
+            "hostile-payload matrix against the benign build.",
     "note": "Lexer composition is a meta-argument. Sites outside the document family are not covered.",
-    "technique": "contract-based deductive verification (loop statement contract, z3) + exhaustive finite checks against CPython's lexer + bounded position x payload matrix",
+    "technique": "contract-based deductive verification (statement contracts, non-interference VCs with declassification, z3) + exhaustive finite checks against CPython's lexer + bounded position x payload matrix",
 }
